@@ -4,7 +4,7 @@ import os
 import numpy as np
 
 
-def tan_header(crpix1, crpix2, scale=1e-3, crval=(50.0, 30.0), bottoms_up=False, key="", rot=None):
+def tan_header(crpix1, crpix2, scale=1e-3, crval=(50.0, 30.0), bottoms_up=False, key="", rot=None, parity_in_pc=False):
     from astropy.io import fits
 
     h = fits.Header()
@@ -18,6 +18,18 @@ def tan_header(crpix1, crpix2, scale=1e-3, crval=(50.0, 30.0), bottoms_up=False,
     h["CDELT2" + key] = scale if bottoms_up else -scale
     h["CUNIT1" + key] = "deg"
     h["CUNIT2" + key] = "deg"
+    if parity_in_pc:
+        # the row order is expressed in the PC matrix (second column negated for bottom-up rows), CDELT is the same for both:
+        # files of both row orders then pass a "same CDELT" test and can legitimately sit in one collection
+        import math
+
+        r_ = rot or 0
+        c, sn = {0: (1.0, 0.0), 90: (0.0, 1.0), 180: (-1.0, 0.0), 270: (0.0, -1.0)}.get(r_ % 360, (math.cos(math.radians(r_)), math.sin(math.radians(r_))))
+        f = -1.0 if bottoms_up else 1.0
+        # written as a CD matrix (no CDELT): astropy normalises it to CDELT = 1 + PC for files of either row order
+        del h["CDELT1" + key], h["CDELT2" + key]
+        h["CD1_1" + key], h["CD1_2" + key], h["CD2_1" + key], h["CD2_2" + key] = -scale * c, -scale * (-sn * f) + 0.0, -scale * sn, -scale * c * f + 0.0
+        return h
     if rot is not None:
         # rotation of the pixel grid on the sky; multiples of 90 degrees give EXACT zeros and ones
         import math
@@ -29,7 +41,7 @@ def tan_header(crpix1, crpix2, scale=1e-3, crval=(50.0, 30.0), bottoms_up=False,
     return h
 
 
-def write_piece(path, mosaic, rect, ref, scale=1e-3, crval=(50.0, 30.0), bottoms_up=False, nan_border=0, dtype=None, rot=None):
+def write_piece(path, mosaic, rect, ref, scale=1e-3, crval=(50.0, 30.0), bottoms_up=False, nan_border=0, dtype=None, rot=None, parity_in_pc=False):
     """mosaic: 2-D array in display (top-down) orientation; rect=(x0,y0,w,h); ref=(cx,cy) 0-based mosaic pixel of CRVAL."""
     from astropy.io import fits
 
@@ -46,7 +58,7 @@ def write_piece(path, mosaic, rect, ref, scale=1e-3, crval=(50.0, 30.0), bottoms
     if bottoms_up:
         data = data[::-1]
         crpix2 = h + 1 - crpix2
-    hdr = tan_header(crpix1, crpix2, scale, crval, bottoms_up, rot=rot)
+    hdr = tan_header(crpix1, crpix2, scale, crval, bottoms_up, rot=rot, parity_in_pc=parity_in_pc)
     if dtype is not None:
         data = data.astype(dtype)
     fits.PrimaryHDU(np.ascontiguousarray(data), header=hdr).writeto(path, overwrite=True)
@@ -61,3 +73,15 @@ def paste(mosaic_shape, pieces, dtype=np.float32):
         ok = ~np.isnan(arr)
         sub[ok] = arr[ok]
     return out
+
+
+def bundle(paths, out):
+    """the pieces as extensions 1..n of ONE multi-extension file; returns (paths, hdu_index) for SimpleFitsCollection"""
+    from astropy.io import fits
+
+    hl = [fits.PrimaryHDU()]
+    for p in paths:
+        with fits.open(p) as h:
+            hl.append(fits.ImageHDU(h[0].data.copy(), header=h[0].header.copy()))
+    fits.HDUList(hl).writeto(out, overwrite=True)
+    return [out] * len(paths), list(range(1, len(paths) + 1))
